@@ -55,10 +55,24 @@ def kwargs(on):
     return kw
 
 
+class MinifyHang(RuntimeError):
+    """minify() did not return within the watchdog limit (reported by the checks like any other exception from minify)"""
+
+
 def minify(source, on, **extra):
     kw = kwargs(on)
     kw.update(extra)
-    return python_minifier.minify(source, **kw)
+    import threading
+    if threading.current_thread() is not threading.main_thread():
+        return python_minifier.minify(source, **kw)
+    from mc.core import time_limit, CaseTimeout
+    try:
+        with time_limit(float(os.environ.get('VERIF_MINIFY_LIMIT', '20'))):
+            return python_minifier.minify(source, **kw)
+    except CaseTimeout:
+        raise MinifyHang('minify() still running after the watchdog limit')
+    except RecursionError:
+        raise
 
 
 def dev(base, universe, d):
